@@ -28,6 +28,7 @@ TABLE = [
  ("invalid escape of a multi-byte", "C07", "an invalid escape of a multi-byte character (`\"a\\éb\"`) split the character: bad span, wrong character appended, cursor mid-sequence", "regress/C07/invalid-escape-multibyte.json"),
  ("hidden by the calling statement's own write", "C03", "block-level liveness noted a statement's write before its callees' capture reads: in `x get \"x\" add f()` with f reading x, an earlier `x get \"a\"` in a preceding block was pruned and f saw the stale value", "regress/C03/callee-read-hidden-by-own-write.json"),
  ("wrong number of arguments on a dynamically typed receiver", "C06", "a built-in method with the wrong number of arguments on a dynamically typed receiver (`x.slice(1)`, `x.push()`) indexed a missing argument (panic); now the `Invalid parameter count` runtime error", "regress/C06/method-arity-on-dynamic-receiver.json, push-without-argument-on-dynamic-receiver.json"),
+ ("accepted an operand of a statically wrong type", "C09", "`and`/`or` with a null or dynamically typed operand skipped the check of the other operand: `null or 1`, `\"s\" and null`, `[1] or x[0]` were accepted (then `null or 1` always fails at run time and `1 or null` silently prints false)", "regress/C09/logical-operand-excused-by-null*.json"),
  ("classified as unable to fail and pruned", "C03", "operators, method calls and captured-variable reads on dynamically typed values were classed pure/non-trapping, so an unused `make u get a minus 1` was pruned together with the runtime error it raises", "regress/C03/dynamic-type-error-in-dead-store.json, captured-read-before-declaration-in-dead-store.json"),
 ]
 out = []
